@@ -1,4 +1,5 @@
 import CandidModel.Proofs.LebBig
+import CandidModel.Proofs.LebSigned
 import CandidModel.Gen.Consts
 /-
   C09 — Unbounded and 128-bit integer codecs implement (S)LEB128 exactly.
@@ -78,6 +79,29 @@ theorem nat_encode_decode (n : Nat) (r : Bytes) : natDecode (Impl.natEncode n ++
 example : Terminated ([0x81] ++ List.replicate 17 0x80 ++ [0x00]) := by simp [Terminated, List.replicate]
 example : decodeNat128 ([0x80, 0x80, 0x80, 0x80, 0x80, 0x80, 0x80, 0x80, 0x80, 0x80, 0x80, 0x80, 0x80, 0x80,
     0x80, 0x80, 0x80, 0x80, 0x04]) = .err .overflow := by decide
+
+/-- **`Int::decode` maps every terminated signed LEB128 string — minimal or padded, of any length — to exactly its
+two's-complement value and consumes exactly its bytes**; without a terminating byte it reports the end of input.
+Covers the `i64` accumulator, the last byte that only fits when it is all zeros or all ones, and the big-number
+fallback. -/
+theorem int_decode_exact (bs : Bytes) :
+    intDecode bs = (match specReadInt bs with | none => .err .eof | some x => .ok x) := intDecode_spec bs
+
+/-- in particular on a terminated string followed by anything -/
+theorem int_decode_of_terminated (p r : Bytes) (hp : Terminated p) : intDecode (p ++ r) = .ok (sval p, r) := by
+  rw [intDecode_spec]; unfold specReadInt; rw [splitLeb_append p r hp]; rfl
+
+/-- hence an encoded integer decodes to itself through `Int::decode`, whatever its size -/
+theorem int_encode_decode (i : Int) (r : Bytes) : intDecode (Impl.intEncode i ++ r) = .ok (i, r) := by
+  rw [intEncode_eq_sleb, int_decode_of_terminated _ _ (sleb_terminated i), sval_sleb]
+
+/-- **the deserializer's 64-bit fast paths** (`try_read_leb_u64` / `try_read_leb_i64`, with the rewind to the
+big-number decoder when nine bytes do not end the number) compute the same values: no input makes the fast path
+and the specification differ, and the `!0 << shift` of the signed path is never reached with `shift ≥ 64`. -/
+theorem typed_nat_int_readers_exact (bs : Bytes) :
+    deNat bs = (match specReadNat bs with | none => .err .eof | some x => .ok x) ∧
+    deInt bs = (match specReadInt bs with | none => .err .eof | some x => .ok x) :=
+  ⟨deNat_spec bs, deInt_spec bs⟩
 
 /-- non-vacuity of the big-number path: `2^70` and `-2^70 - 1` are beyond the word path -/
 example : ¬ (-(2 : Int) ^ 63 ≤ (2 : Int) ^ 70 ∧ (2 : Int) ^ 70 < (2 : Int) ^ 63) := by decide
